@@ -451,6 +451,8 @@ example :
 above are about `build` on bracketing trees.  They are the same thing. -/
 
 mutual
+/-- for a program all of whose element constructors succeed, evaluating the Python expression
+(`Spec.toElement`) and building its bracketing tree (`build ∘ Spec.toTree`) give the same object -/
 theorem toTree_build : ∀ (s : Spec) (t : Tree Value), Spec.toTree s = .ok t → build t = Spec.toElement s
   | .seq els, t, h => by
     simp only [Spec.toTree] at h
@@ -533,6 +535,7 @@ theorem toElements_singleton (s : Spec) (el : Element Value) (h : Spec.toElement
   simp [Spec.toElements, h]
 
 mutual
+/-- the leaves of the bracketing tree are the elements of the program with its groups dissolved -/
 theorem toTree_flatten : ∀ (s : Spec) (t : Tree Value), Spec.toTree s = .ok t →
     Spec.toElements s.flat = .ok (flatten t)
   | .seq els, t, h => by
